@@ -756,19 +756,23 @@ func (ev *Evaluator) call(x *ECall, env *Env) Val {
 		}
 	}
 	if f, isFold := ev.folds[x.Fn]; isFold {
-		if len(x.Args) != 2 || ev.th.Mode() != "int" {
-			ev.fail("%s: expected (sequence, count) in int mode", x.Fn)
+		if (len(x.Args) != 2 && len(x.Args) != 1) || ev.th.Mode() != "int" {
+			ev.fail("%s: expected (sequence, count) or (count) in int mode", x.Fn)
 		}
-		sl, ok := ev.Eval(x.Args[0], env).(*SliceV)
-		if !ok {
-			ev.fail("%s: first argument must be a byte slice or string", x.Fn)
+		// one argument: a fold that does not look at the sequence (a recursion on the count alone)
+		arr, off := T{S: "emptyArr", Sort: sortArr}, intT64(0)
+		if len(x.Args) == 2 {
+			sl, ok := ev.Eval(x.Args[0], env).(*SliceV)
+			if !ok {
+				ev.fail("%s: first argument must be a byte slice or string", x.Fn)
+			}
+			arr = sl.Arr
+			if sl.Back != nil {
+				arr = ev.slice(sl, env.inOld)
+			}
+			off = sl.Off
 		}
-		arr := sl.Arr
-		if sl.Back != nil {
-			arr = ev.slice(sl, env.inOld)
-		}
-		off := sl.Off
-		n := ev.specOf(ev.Eval(x.Args[1], env))
+		n := ev.specOf(ev.Eval(x.Args[len(x.Args)-1], env))
 		if ev.vc != nil {
 			off = ev.vc.define("foldoff", off)
 			n = ev.vc.define("foldn", n)
